@@ -33,7 +33,7 @@ def gates(tier):
         "min_decided": {a: 300 * k for a in APIS[:5]} | {APIS[5]: 1500 * k},
         "shapes": {c: 5 * k for c in ["eps_arc", "multi_initial", "nondeterministic", "acyclic", "cyclic", "dead_state",
                                       "unreachable_state", "sr:Q", "sr:Float", "empty_language", "zero_weight_arc", "tiny_weight", "gadget:globally-normalised",
-                                      "cyclic-deterministic", "cyclic-twins"]},
+                                      "cyclic-deterministic", "cyclic-twins", "scale:big-automaton"]},
         "min_events": {"determinize.subset_states": 500 * k},
         "min_hashseeds": 2,
     }
@@ -44,6 +44,10 @@ def gen_case(rng, spec):
 
     if rng.random() < 0.15:
         return gen_cyclic_terminating(rng)
+    if rng.random() < 0.05:
+        # scale: 8-14 states, 6-10 symbols, a state with many arcs, 3+ initial / final states
+        return {"m": GA.gen_big_wfsa(rng, acyclic=rng.random() < 0.6), "R": rng.choice(["Q", "Q", "Float"]), "maxlen": 2,
+                "sseed": rng.randrange(1 << 30)}
     acyclic = rng.random() < 0.6
     m = GA.gen_wfsa(rng, acyclic=acyclic, max_states=5, max_arcs=9)
     if acyclic and rng.random() < 0.5 and m["n"] >= 3:
@@ -156,7 +160,9 @@ def run_case(case, ctx):
     ctx.case(fp, bool({"eps_arc", "multi_initial", "nondeterministic"} & cls), sorted(cls) + [f"sr:{R}"])
     ctx.sample({"case": case, "classes": sorted(cls)})
     Din = lib.dense_from_case(m, "Q")
-    strings = list(GG.strings_upto(m["alphabet"], case["maxlen"]))
+    strings = GA.case_strings(m, case["maxlen"], case.get("sseed", 0))
+    if m.get("big"):
+        ctx.shape["scale:big-automaton"] += 1
     cls_ = field_wfsa.WFSA if R == "Float" else base.WFSA
     ok, A = ctx.call(APIS[0], case, lib.build_wfsa, m, R, cls_)
     if not ok:
